@@ -274,6 +274,7 @@ RulesLoop:
 	}
 	// Reset Skip counter at the end of each phase. Skip actions work only within the current processing phase
 	tx.Skip = 0
+	tx.SkipAfter = ""
 
 	tx.stopWatches[phase] = time.Now().UnixNano() - ts
 	return tx.IsInterrupted()
